@@ -28,6 +28,11 @@ def canonical_ast_order(doc):
         order.append(s)
 
     def tags(ts):
+        # tags are numbered in DOCUMENT order (line, then column) - which is also the order of the list on a correct tree
+        try:
+            ts = sorted(ts, key=lambda t: (t["location"]["line"], t["location"].get("column", 0)))
+        except (KeyError, TypeError, AttributeError):
+            pass
         for t in ts:
             order.append(t)
 
